@@ -37,10 +37,10 @@ Lemma create_population_fresh n org : gen_create_population n org true = map fre
 Proof. unfold gen_create_population. now rewrite map_map. Qed.
 
 (* ---------------------------------------------------------------- AbstractDeme.__init__ *)
-Definition base (lvl started : nat) : cobj :=
+Definition cbase (lvl started : nat) : cobj :=
   {| c_level := Some lvl; c_started := Some started; c_active := Some true; c_hib := Some false; c_hist := Some []; c_children := Some 0;
      c_own_problem := true; c_counted := 0; c_local_evals := None |}.
-Theorem AbstractDeme_init_ok lvl started seed : gen_AbstractDeme_init (gen_init_args lvl started seed) = base lvl started.
+Theorem AbstractDeme_init_ok lvl started seed : gen_AbstractDeme_init (gen_init_args lvl started seed) = cbase lvl started.
 Proof. reflexivity. Qed.
 
 (* what a finished constructor must have produced *)
@@ -48,9 +48,9 @@ Definition ctor_ok (lvl started : nat) (local : bool) (o : cobj) (pop : list sin
   built o local = Some (fresh_deme lvl started (if local then 0 else length pop)) /\ start_population o = Some pop /\ forallb s_fit pop = true.
 
 Ltac ctor_start := intros; unfold ctor_ok; cbv beta delta [gen_EADeme_init gen_DEDeme_init gen_SHADEDeme_init gen_CMADeme_init gen_LocalDeme_init gen_LHSDeme_init gen_SobolDeme_init];
-  rewrite ?AbstractDeme_init_ok; cbv zeta; cbn [a_seed gen_init_args c_own_problem base].
+  rewrite ?AbstractDeme_init_ok; cbv zeta; cbn [a_seed gen_init_args c_own_problem cbase].
 Ltac ctor_finish := rewrite ?gen_evaluate_population_spec; cbn [fst snd];
-  unfold append_history, count_evals, set_local_evals, built, start_population, fresh_deme, base;
+  unfold append_history, count_evals, set_local_evals, built, start_population, fresh_deme, cbase;
   cbn [c_level c_started c_active c_hib c_hist c_children c_own_problem c_counted c_local_evals set_history app length Nat.sub].
 
 (* the three population engines: pop_size individuals; with a seed: pop_size - 1 drawn around it plus a new individual holding the seed's genome *)
@@ -71,14 +71,14 @@ Lemma engine_ctor (mk : nat -> iargs -> cobj) :
      else (let r := gen_evaluate_population (gen_create_population pop_size OUniform (c_own_problem o1)) in append_history (count_evals o1 (snd r)) [fst r])) ->
   forall lvl started seed pop_size, 1 <= pop_size -> ctor_ok lvl started false (mk pop_size (gen_init_args lvl started seed)) (engine_pop seed pop_size).
 Proof.
-  intros Hmk lvl started seed n Hn. unfold ctor_ok. rewrite Hmk, AbstractDeme_init_ok. cbv zeta. cbn [a_seed gen_init_args c_own_problem base].
+  intros Hmk lvl started seed n Hn. unfold ctor_ok. rewrite Hmk, AbstractDeme_init_ok. cbv zeta. cbn [a_seed gen_init_args c_own_problem cbase].
   rewrite engine_pop_length by exact Hn. split; [|split; [|apply engine_pop_fit]].
   - destruct seed; rewrite gen_evaluate_population_spec, create_population_fresh; cbn [fst snd].
     + change (gen_Individual_new OSeedGenome true) with (fresh OSeedGenome). rewrite map_app, list_sum_app. cbn [map list_sum]. rewrite cost_fresh, !map_length, seq_length.
-      unfold append_history, count_evals, built, fresh_deme, base. cbn [c_level c_started c_active c_hib c_hist c_children c_own_problem c_counted c_local_evals set_history app length Nat.sub].
+      unfold append_history, count_evals, built, fresh_deme, cbase. cbn [c_level c_started c_active c_hib c_hist c_children c_own_problem c_counted c_local_evals set_history app length Nat.sub].
       repeat f_equal. cbn. lia.
     + rewrite cost_fresh, !map_length, seq_length.
-      unfold append_history, count_evals, built, fresh_deme, base. now cbn [c_level c_started c_active c_hib c_hist c_children c_own_problem c_counted c_local_evals set_history app length Nat.sub].
+      unfold append_history, count_evals, built, fresh_deme, cbase. now cbn [c_level c_started c_active c_hib c_hist c_children c_own_problem c_counted c_local_evals set_history app length Nat.sub].
   - destruct seed; rewrite gen_evaluate_population_spec, create_population_fresh; cbn [fst snd].
     + change (gen_Individual_new OSeedGenome true) with (fresh OSeedGenome). rewrite !map_app, ev_fresh. reflexivity.
     + rewrite ev_fresh. reflexivity.
@@ -99,11 +99,11 @@ Lemma rows_ctor (mk : nat -> iargs -> cobj) (org : nat -> origin) :
                         let r := gen_evaluate_population (map (fun k => gen_Individual_new (org k) (c_own_problem o1)) (seq 0 n)) in append_history (count_evals o1 (snd r)) [fst r]) ->
   forall lvl started seed n, ctor_ok lvl started false (mk n (gen_init_args lvl started seed)) (map done_ (map org (seq 0 n))).
 Proof.
-  intros Hmk lvl started seed n. unfold ctor_ok. rewrite Hmk, AbstractDeme_init_ok. cbv zeta. cbn [c_own_problem base].
+  intros Hmk lvl started seed n. unfold ctor_ok. rewrite Hmk, AbstractDeme_init_ok. cbv zeta. cbn [c_own_problem cbase].
   change (map (fun k => gen_Individual_new (org k) true) (seq 0 n)) with (gen_create_population n org true).
   rewrite gen_evaluate_population_spec, create_population_fresh, cost_fresh, ev_fresh. cbn [fst snd]. rewrite !map_length, seq_length.
   split; [|split; [reflexivity|apply done_fit]].
-  unfold append_history, count_evals, built, fresh_deme, base. now cbn [c_level c_started c_active c_hib c_hist c_children c_own_problem c_counted c_local_evals set_history app length Nat.sub].
+  unfold append_history, count_evals, built, fresh_deme, cbase. now cbn [c_level c_started c_active c_hib c_hist c_children c_own_problem c_counted c_local_evals set_history app length Nat.sub].
 Qed.
 Theorem CMADeme_ctor_ok lvl started seed lam : ctor_ok lvl started false (gen_CMADeme_init lam (gen_init_args lvl started seed)) (map done_ (map OAsk (seq 0 lam))).
 Proof. apply (rows_ctor gen_CMADeme_init OAsk). reflexivity. Qed.
